@@ -19,6 +19,8 @@ TRUSTED = [
     "correspondence harness: harness/props/c11.py generators (incl. the independent integer computation of the probe's "
     "simulated frames; the Python mirror of the range verdict only steers the generator and names classes), "
     "harness/drivers/c11.py, probes/verif_probes_c11.py, float.as_integer_ratio() -> Q literals",
+    "quick tier: the driver processes run with NUMBA_OPT=0 (numba's LLVM optimisation level; the fitness functions are "
+    "not fast-math, so the floating-point operations and their order are the same); thorough tier: default level",
     "modelled, not verified: numpy/numba elementwise float64 arithmetic is exact on the generated small integers and "
     "dyadics, np.nansum skips NaN, xarray isel = Python slicing (clipping), numpy broadcasting of (1, y, x) against (y, x); "
     "pygmo champion tracking (champion = best individual ever inserted) is a model, observed on real runs only",
@@ -821,6 +823,16 @@ def gen_hist_one(r, max_len):
     return c
 
 
+BIG = 1 << 40
+
+
+def bigify(c):
+    """the same configuration with every target value raised by 2^40 (absolute residuals: exact in binary64)"""
+    d = dict(c, ff="abs")
+    d["targets"] = [[[[None if v is None else v + BIG for v in row] for row in pl] for pl in t] for t in c["targets"]]
+    return d
+
+
 def gen_hist(r, count, max_len):
     return [gen_hist_one(r, max_len) for _ in range(count)]
 
@@ -1406,6 +1418,11 @@ def run(ctx: Ctx):
     core.proof_leg(ctx, gen, PROP_FILE)
     ctx.log(f"proof leg done t={__import__('time').time() - ctx.t0:.0f}s")
 
+    # numba compiles the three fitness functions in every driver process (no on-disk cache in the source): in the quick
+    # tier at LLVM optimisation level 0 (about 2 s instead of 13 s per process; no fast-math either way, so the same
+    # IEEE operations in the same order), in the thorough tier and in replays at the default level
+    if ctx.quick:
+        __import__("os").environ.setdefault("NUMBA_OPT", "0")
     # cases of every leg (one PRNG stream per leg), then ONE pool of implementation processes for all of them
     r = ctx.rng("ck")
     ck_cases = ck_exhaustive([1, 2] if ctx.quick else [1, 2, 3, 4, 5])
@@ -1472,6 +1489,13 @@ def search(ctx: Ctx):
                 tag="sfit")
     if not new_violations(ctx):
         leg_hist(ctx, gen_hist(ctx.rng("shist"), 120, 14), tag="shist")
+    if not new_violations(ctx):
+        # very large figures of merit (targets near 2^40, exact in binary64 with the absolute residuals): thresholds,
+        # caps and guards on the running sum that ordinary values never reach
+        r = ctx.rng("sbig")
+        fits = [bigify(c) for c in gen_fit(r, 60, flagged_share=0.0) if py_verdict(c)[0] == "accept" and not known_classes(c)]
+        leg_fit(ctx, fits, tag="sbig")
+        leg_hist(ctx, [bigify(c) for c in gen_hist(r, 30, 9)], tag="sbigh")
     ctx.cov["search"] = True
 
 
